@@ -344,6 +344,19 @@ Proof.
   reflexivity.
 Qed.
 
+Lemma owf_name_id_mapping_response_fixed entityid name_id irt status sg ob o :
+  obs_ok ob -> opt_lexb LNCName irt = true -> opt_valid k_saml_NameID name_id = true ->
+  name_id_mapping_response_fixed entityid name_id irt status sg ob = Some o -> owf live_table o = true.
+Proof.
+  intros Hob Hirt Hn E. unfold name_id_mapping_response_fixed in E.
+  destruct (sig_member sg ob) as [s|] eqn:Es; [|discriminate]. inversion E; subst o. clear E.
+  pose proof (sig_part _ _ _ Hob Es) as Hsg. pose proof (raw_opt _ _ Hn) as Hnid.
+  destruct Hob as [Hid [Hin _]].
+  node' at_NameIDMappingResponse ci_NameIDMappingResponse. uk.
+  rewrite status_cref, owf_status, owf_issuer, Hsg, Hnid, Hid, Hin. unfold opt_lexb in Hirt.
+  conj; leaf.
+Qed.
+
 Lemma name_id_mapping_response_refuted :
   exists entityid name_id irt sg ob o,
     obs_ok ob /\ name_id_mapping_response entityid name_id irt sg ob = Some o
@@ -712,3 +725,15 @@ Qed.
 
 Example sample_ar_built : exists o, authn_request sample_ar = Some o /\ valid_doc live_table (to_tree live_table o) = true.
 Proof. eexists. split; [reflexivity|vm_compute; reflexivity]. Qed.
+
+Lemma name_id_mapping_response_fixed_valid :
+  forall entityid name_id irt status sg ob o,
+    obs_ok ob -> opt_lexb LNCName irt = true -> opt_valid k_saml_NameID name_id = true ->
+    name_id_mapping_response_fixed entityid name_id irt status sg ob = Some o ->
+    valid live_table (CK k_samlp_NameIDMappingResponse) (to_tree live_table o) = true.
+Proof.
+  intros e n i st sg ob o H1 H2 H3 E.
+  pose proof (owf_name_id_mapping_response_fixed e n i st sg ob o H1 H2 H3 E) as Ho.
+  pose proof (owf_valid live_table table_ok o Ho) as Hv.
+  unfold name_id_mapping_response_fixed in E. destruct (sig_member sg ob); [|discriminate]. inversion E; subst o. exact Hv.
+Qed.
